@@ -20,7 +20,11 @@ def main(tier):
 XLINK = 'http://www.w3.org/1999/xlink'
 MARKUP = ('<DIV ID="Top" Class="Xy"><P TITLE="Xy" type="Xy">t</P><input TYPE="CheckBox" CHECKED="checked" Value="V"/>'
           '<a HREF="#" hreflang="EN">l</a><Span data-K="xY">s</Span>'
-          '<svg xmlns:xlink="%s"><use xlink:href="#u" xlink:Title="T"/></svg></DIV>' % XLINK)
+          '<svg xmlns:xlink="%s" viewBox="0 0 1 1"><use xlink:href="#u" xlink:Title="T"/><foreignObject><p>f</p></foreignObject>'
+          '<linearGradient id="lg"/></svg></DIV>' % XLINK)
+# a plain XML document (not XHTML) that embeds XHTML-namespaced elements: HTML-only pseudo-classes must still never match
+EMBED = ('<feed xmlns="urn:atom"><entry><div xmlns="http://www.w3.org/1999/xhtml" dir="rtl"><input type="checkbox" checked="checked"/>'
+         '<a href="#">l</a><p dir="ltr">t</p></div></entry></feed>')
 
 
 def trace_part(chk, tier):
@@ -31,7 +35,7 @@ def trace_part(chk, tier):
     lines = []
     nm = lambda s: cps(s)  # noqa: E731
     sels = []
-    for tag in ('div', 'DIV', 'p', 'P', 'span', 'Span', 'SPAN'):
+    for tag in ('div', 'DIV', 'p', 'P', 'span', 'Span', 'SPAN', 'foreignObject', 'foreignobject', 'FOREIGNOBJECT', 'linearGradient', 'lineargradient'):
         sels.append([{'cs': [[{'k': 'type', 'ns': gen.BARE, 'name': nm(tag)}]], 'cb': []}])
     for an in ('id', 'ID', 'title', 'TITLE', 'type', 'TYPE', 'data-k', 'data-K', 'class', 'hreflang'):
         for val in ('xy', 'Xy', 'XY', 'top', 'Top', 'checkbox', 'CheckBox', 'en'):
@@ -41,21 +45,24 @@ def trace_part(chk, tier):
                                           'val': nm(val), 'flag': fl}]], 'cb': []}])
     for k in HTML_ONLY:
         sels.append([{'cs': [[{'k': k}]], 'cb': []}])
+    for dd in ('ltr', 'rtl'):
+        sels.append([{'cs': [[{'k': 'dir', 'd': dd}]], 'cb': []}])
     nssels = []          # namespaced attribute names: case-sensitive in XML and XHTML, folded in HTML
     for spec in ({'t': 'pfx', 'p': cps('x')}, {'t': 'any'}):
         for an in ('href', 'HREF', 'Href', 'title', 'Title'):
             nssels.append([{'cs': [[{'k': 'attr', 'ns': spec, 'name': nm(an), 'op': 'ex', 'val': [], 'flag': 'n'}]], 'cb': []}])
     for parser in ('html.parser', 'lxml', 'html5lib', 'xml'):
-        for variant in ('plain', 'xhtml'):
-            if variant == 'xhtml' and parser != 'xml':
+        for variant in ('plain', 'xhtml', 'embed'):
+            if variant != 'plain' and parser != 'xml':
                 continue
-            markup = MARKUP if variant == 'plain' else '<html xmlns="http://www.w3.org/1999/xhtml"><body>%s</body></html>' % MARKUP
+            markup = MARKUP if variant == 'plain' else EMBED if variant == 'embed' else \
+                '<html xmlns="http://www.w3.org/1999/xhtml"><body>%s</body></html>' % MARKUP
             soup = bs4.BeautifulSoup(markup, parser)
             d, nodes = dom.project(soup, bs4)
             idmap = dom.ids_of(nodes)
             from harness import sel as selmod
             root = min([i + 1 for i, (p, k) in enumerate(zip(d['parent'], d['kind'])) if p == 0 and k == 'e'] or [0])
-            is_plain_xml = parser == 'xml' and variant == 'plain'
+            is_plain_xml = parser == 'xml' and variant in ('plain', 'embed')
             for j, ast in enumerate(nssels):
                 css = selmod.selector_list(ast)
                 ev = {'id': '%s.%s.ns%d' % (parser, variant, j), 'doc': d, 'sel': ast, 'nsmap': [{'p': cps('x'), 'u': cps(XLINK)}],
@@ -70,7 +77,7 @@ def trace_part(chk, tier):
                 lines.append(json.dumps(ev))
             for j, ast in enumerate(sels):
                 k0 = ast[0]['cs'][0][0]['k']
-                if k0 in HTML_ONLY and not is_plain_xml:
+                if (k0 in HTML_ONLY or k0 == 'dir') and not is_plain_xml:
                     continue      # the definitions of the HTML state pseudo-classes belong to C17; here: never in plain XML
                 css = selmod.selector_list(ast)
                 ev = {'id': '%s.%s.%d' % (parser, variant, j), 'doc': d, 'sel': ast, 'nsmap': [], 'scope': root, 'target': 0, 'css': css}
